@@ -50,6 +50,11 @@ def tasks(tier, seed, checks=("c02",), canaries=CANARIES):
                 for sup in supports_of([fam], sizes=(2, 3)):
                     for m in (2, 3):
                         out.append(stv.mk_task(rule, m, o, sup, C.K4, checks, nmax=8, weight=3 * len(sup), xval_stride=10))
+    # candidate names that contain one another
+    nfam = C.rename_family(fams3[0], C.NESTED3)
+    for (rule, o) in (sl[0], sl[1], sl[4]):
+        for sup in supports_of([nfam], sizes=(2, 3)):
+            out.append(stv.mk_task(rule, 2, o, sup, C.rename_cands(C.K3, C.NESTED3), checks, nmax=6, weight=len(sup), xval_stride=6))
     # canaries: deliberately wrong oracle variants that must be refuted on the unchanged tree
     cfam = F.fam("A>B", "B>C", "C>A", "A")
     for cn in canaries:
